@@ -20,6 +20,9 @@ def decompose(y_obs: npt.ArrayLike, y_pred: npt.ArrayLike, weights: Optional[npt
     if functional in ('expectile', 'quantile') and (level <= 0 or level >= 1):
         msg = HOLE('msg4')
         raise ValueError(msg)
+    if functional == 'median':
+        functional = 'quantile'
+        level = 0.5
     validate_same_first_dimension(y_obs, y_pred)
     n_pred = length_of_second_dimension(y_pred)
     pred_names, _ = get_sorted_array_names(y_pred)
@@ -59,23 +62,21 @@ def decompose(y_obs: npt.ArrayLike, y_pred: npt.ArrayLike, weights: Optional[npt
     for i in range(len(pred_names)):
         x = y_pred if n_pred == 0 else get_second_dimension(y_pred, i)
         iso.fit(x, y_o, sample_weight=w)
-        recalibrated = np.squeeze(iso.predict(x))
-        if not y_min_allowed and recalibrated[0] <= y_min:
-            idx1 = np.argmax(recalibrated > y_min)
-            val1 = recalibrated[idx1]
-            idx2 = np.argmax(recalibrated > val1)
-            if idx2 == 0:
-                idx2 = recalibrated.shape[0]
-            re2 = recalibrated[:idx2]
-            w2 = None if w is None else w[:idx2]
+        recalibrated = np.atleast_1d(np.squeeze(iso.predict(x)))
+        if not y_min_allowed and np.amin(recalibrated) <= y_min:
+            above = recalibrated[recalibrated > y_min]
+            val1 = np.amin(above) if above.size > 0 else y_min
+            mask = recalibrated <= val1
+            re2 = recalibrated[mask]
+            w2 = None if w is None else w[mask]
             if functional == 'mean':
-                recalibrated[:idx2] = np.average(re2, weights=w2)
+                recalibrated[mask] = np.average(re2, weights=w2)
             elif functional == 'expectile':
-                recalibrated[:idx2] = expectile(re2, alpha=level, weights=w2)
+                recalibrated[mask] = expectile(re2, alpha=level, weights=w2)
             elif functional == 'quantile':
                 lower = quantile_lower(re2, level=level)
                 upper = quantile_upper(re2, level=level)
-                recalibrated[:idx2] = 0.5 * (lower + upper)
+                recalibrated[mask] = 0.5 * (lower + upper)
         score = scoring_function(y_o, x, w)
         try:
             score_recalibrated = scoring_function(y_o, recalibrated, w)
